@@ -99,7 +99,7 @@ PROPS = {
                 profile=Profile(p_hash_read=0.9, proofs=0.3, iters=0.2, exports=0.0, check_all_versions=0.4, p_churn=0.15,
                                 big=0.05, imm_reads=["hash", "hash", "get", "iterate"]),
                 title="canonical root hash"),
-    "C03": dict(kind="v1hist", quick_n=800, thorough_n=2500, oracle=proof_oracle,
+    "C03": dict(kind="v1hist", quick_n=800, thorough_n=2500, oracle=proof_oracle, icsverify=True,
                 profile=Profile(proofs=1.0, p_empty_value=0.04, check_all_versions=0.05, big=0.1,
                                 reads_per_version=(0, 1), imm_reads_per_version=(0, 1)),
                 title="ICS-23 proofs"),
@@ -402,6 +402,16 @@ def run_check(prop, tier, seed, n_override=None):
         else:
             results = C.run_parallel(hists, work, mode=mode)
             mode_of = {}
+        if cfg.get("icsverify"):
+            # second pass: the proofs just produced, genuine and mutated, judged by the real ics23 verifier
+            # and by the Lean model of it (a verifier panic on a hostile proof counts as "not accepted")
+            vh = v1gen.gen_icsverify(seed, results)
+            vres = C.run_parallel(vh, os.path.join(work, "ics"), mode="codec")
+            for r in vres:
+                r["impl"] = ["0" if x == "panic" else x for x in r["impl"]]
+                mode_of[r["id"]] = "codec"
+            results += vres
+            hists = hists + vh
         oracle = cfg.get("oracle")
         ops = 0
         agreed = 0
